@@ -302,11 +302,133 @@ class Inliner:
                     i += 1
             process(holder.body)
 
+    # -- generator materialisation ----------------------------------------------------------
+    PURE_CONSUMERS = {'list', 'tuple', 'set', 'frozenset', 'dict', 'min', 'max', 'sum', 'sorted', 'any', 'all', 'Counter', 'deque'}
+
+    def _all_generators(self):
+        """new generator functions (module level, or methods of a class called as self.name): name / 'self.name' -> (def, class name or None)"""
+        out = {}
+
+        def ok(n, qual):
+            if self.baseline is None or qual in self.baseline or qual in self._aliased_known():
+                return False
+            if any(ast.unparse(d) not in ('staticmethod',) and 'jit' not in ast.unparse(d) for d in n.decorator_list) or n.args.vararg or n.args.kwarg:
+                return False
+            own = list(_own(n))
+            if not any(isinstance(x, (ast.Yield, ast.YieldFrom)) for x in own):
+                return False
+            if any(isinstance(x, (ast.Return, ast.FunctionDef, ast.AsyncFunctionDef, ast.ClassDef, ast.Lambda, ast.Global, ast.Nonlocal)) for x in own):
+                return False
+            # every yield is a statement of its own (its value is not used)
+            par = {}
+            for x in ast.walk(n):
+                for c in ast.iter_child_nodes(x):
+                    par[c] = x
+            if any(not isinstance(par.get(y), ast.Expr) for y in own if isinstance(y, (ast.Yield, ast.YieldFrom))):
+                return False
+            if any(isinstance(x, ast.Call) and _call_key(x) in (n.name, 'self.' + n.name) for x in own):
+                return False
+            return True
+        for n in self.tree.body:
+            if isinstance(n, ast.FunctionDef) and ok(n, n.name):
+                out[n.name] = (n, None)
+            elif isinstance(n, ast.ClassDef):
+                for m_ in n.body:
+                    if isinstance(m_, ast.FunctionDef) and ok(m_, n.name + '.' + m_.name):
+                        out[(n.name, 'self.' + m_.name)] = (m_, n.name)
+        return out
+
+    def _materialise_generators(self):
+        """CONSUMER(gen(args)) with a pure, exhaustive consumer (list, dict, min, sorted, ...) and  for T in gen(args): ...  whose body writes nothing the
+        generator reads:  the generator's body is placed before the statement with every `yield v` turned into `acc.append(v)`, and the call
+        becomes `acc` - the values and their order are the same, only the laziness is gone"""
+        gens = self._all_generators()
+        if not gens:
+            return
+        for holder, qual in list(self._functions(self.tree.body, '')):
+            cls = qual.split('.')[0] if '.' in qual else None
+            scope = {k: v[0] for k, v in gens.items() if isinstance(k, str) and v[0] is not holder}
+            scope.update({k[1]: v[0] for k, v in gens.items() if isinstance(k, tuple) and k[0] == cls and v[0] is not holder})
+            if not scope:
+                continue
+            caller_bound = _bound_names(holder) | set(_params(holder))
+
+            def process(body):
+                i = 0
+                while i < len(body):
+                    st = body[i]
+                    if isinstance(st, (ast.FunctionDef, ast.AsyncFunctionDef, ast.ClassDef)):
+                        i += 1
+                        continue
+                    for f in ('body', 'orelse', 'finalbody'):
+                        b = getattr(st, f, None)
+                        if isinstance(b, list) and b and isinstance(b[0], ast.stmt):
+                            process(b)
+                    if isinstance(st, ast.Try):
+                        for h in st.handlers:
+                            process(h.body)
+                    found = self._find_call(st, scope)
+                    if found is not None:
+                        call, parent, direct = found
+                        helper = scope[_call_key(call)]
+                        consumer_ok = False
+                        if isinstance(st, ast.For) and st.iter is call:
+                            # the loop body must not write what the generator reads
+                            reads = {x.id for x in _own(helper) if isinstance(x, ast.Name)} | {x.attr for x in _own(helper) if isinstance(x, ast.Attribute)}
+                            writes = set()
+                            for b_ in st.body:
+                                for x in ast.walk(b_):
+                                    if isinstance(x, (ast.Name, ast.Attribute, ast.Subscript)) and isinstance(getattr(x, 'ctx', None), (ast.Store, ast.Del)):
+                                        r = x
+                                        while isinstance(r, ast.Subscript):
+                                            r = r.value
+                                        writes.add(r.id if isinstance(r, ast.Name) else (r.attr if isinstance(r, ast.Attribute) else None))
+                                    if isinstance(x, ast.Call) and isinstance(x.func, ast.Attribute) and isinstance(x.func.value, ast.Attribute):
+                                        writes.add(x.func.value.attr)
+                            consumer_ok = not (reads & (writes - {None})) - set(_params(helper))
+                        elif isinstance(parent, ast.Call) and isinstance(parent.func, ast.Name) and parent.func.id in self.PURE_CONSUMERS and parent.args and parent.args[0] is call:
+                            consumer_ok = True
+                        elif isinstance(parent, ast.Call) and isinstance(parent.func, ast.Attribute) and parent.func.attr in ('update', 'extend', 'join') and parent.args and parent.args[0] is call:
+                            consumer_ok = True
+                        if consumer_ok:
+                            inst = self._instantiate(helper, call, holder, False, caller_bound)
+                            if inst is not None:
+                                self.counter += 1
+                                acc = f'__gen{self.counter}'
+
+                                class Y(ast.NodeTransformer):
+                                    def visit_Expr(yself, node):
+                                        if isinstance(node.value, ast.Yield):
+                                            v = node.value.value if node.value.value is not None else ast.Constant(None)
+                                            return ast.copy_location(ast.Expr(ast.Call(func=ast.Attribute(value=ast.Name(acc, ast.Load()), attr='append', ctx=ast.Load()), args=[v], keywords=[])), node)
+                                        if isinstance(node.value, ast.YieldFrom):
+                                            return ast.copy_location(ast.Expr(ast.Call(func=ast.Attribute(value=ast.Name(acc, ast.Load()), attr='extend', ctx=ast.Load()), args=[node.value.value], keywords=[])), node)
+                                        return node
+
+                                    def visit_FunctionDef(yself, node):
+                                        return node
+                                new = [ast.Assign(targets=[ast.Name(acc, ast.Store())], value=ast.List(elts=[], ctx=ast.Load()))] + [Y().visit(x) for x in inst]
+                                for x in new:
+                                    ast.copy_location(x, st) if not hasattr(x, 'lineno') else None
+                                    ast.fix_missing_locations(x)
+                                _replace_child(st, call, ast.copy_location(ast.Name(acc, ast.Load()), call))
+                                body[i:i] = new
+                                self.expanded[helper.name] = self.expanded.get(helper.name, 0) + 1
+                                self.log.append(f'{holder.name}: generator {helper.name} materialised at line {getattr(st, "lineno", "?")}')
+                                i += len(new)
+                                continue
+                    i += 1
+            process(holder.body)
+
     def run(self):
         try:
             self._fuse_generators()
         except Exception as e:      # a fusion that cannot be built leaves the code as it is
             self.log.append(f'generator fusion skipped: {type(e).__name__}: {e}')
+        try:
+            self._materialise_generators()
+        except Exception as e:
+            self.log.append(f'generator materialisation skipped: {type(e).__name__}: {e}')
         for _ in range(MAX_ROUNDS):
             changed = False
             top = {n.name: n for n in self.tree.body if isinstance(n, (ast.FunctionDef, ast.AsyncFunctionDef))}
